@@ -77,7 +77,7 @@ def _run(data: bytes, cuts, mode: str, uploads: bool = True):
 
     sim, tr = vloop.run(scenario)
     hc = [tuple(e[2:7]) for e in sim.log if e[0] == "handler"]
-    uc = [tuple(e[2:8]) for e in sim.log if e[0] == "upload"]
+    uc = [tuple(e[2:8]) for e in sim.log if e[0] == "upload"] + [("late", e[2]) for e in sim.log if e[0] == "upload-content-late"]
     return tr.written(), hc, uc, tr.closed_by_app()
 
 
@@ -93,9 +93,16 @@ def run_seg(case: dict):
     base = _baseline[key]
     got = _run(data, case["cuts"], mode, uploads)
     info = {"S": b2s(got[0][:60]), "h": len(got[1]), "u": len(got[2]), "chunks": len(case["cuts"]) + 1}
-    if len(got[1]) + len(got[2]) > 1:
-        return viol("handler-invoked-more-than-once", f"{len(got[1])} handler + {len(got[2])} upload invocations", **info)
-    if len(base[1]) + len(base[2]) > 1:
+    n_up = lambda r: sum(1 for u in r[2] if u[0] != "late")  # noqa: E731
+    if len(got[1]) + n_up(got) > 1:
+        return viol("handler-invoked-more-than-once", f"{len(got[1])} handler + {n_up(got)} upload invocations", **info)
+    for r in (got, base):
+        first = [u for u in r[2] if u[0] != "late"]
+        late = [u for u in r[2] if u[0] == "late"]
+        if first and late and late[0][1] != first[0][5]:
+            return viol("upload-content-changed-after-dispatch", f"the upload handler was given {first[0][5][:40]!r}; when it read the content again "
+                        f"after awaiting it was {late[0][1][:60]!r}", **info)
+    if len(base[1]) + n_up(base) > 1:
         return viol("handler-invoked-more-than-once", f"baseline: {len(base[1])}+{len(base[2])}", **info)
     if got[0] != base[0]:
         return viol("response-depends-on-segmentation", f"single read {base[0][:80]!r} vs cuts {case['cuts']} {got[0][:80]!r}", **info)
@@ -243,18 +250,27 @@ def _tls_run(case, deliver):
         for pc in pieces:
             cl.obj.write(pc)
             recs.append(cl.take())
+        if case.get("fin"):
+            # the client announces the end of its data (close_notify) right behind the request
+            cl.close_notify()
+            recs.append(cl.take())
         stream = tail + b"".join(recs)
+        # with a close_notify behind the request no loop iteration may separate the two in either delivery: how far an
+        # asynchronous handler gets before the peer's close is a matter of timing, not of segmentation
+        fin = bool(case.get("fin"))
         if deliver == "records":
-            for part in ([tail] if tail else []) + recs:
+            parts = ([tail] if tail else []) + recs
+            for i, part in enumerate(parts):
                 conn.tcp.feed(part)
-                await vloop.settle(3)
+                if not (fin and (i > 0 or not tail)):
+                    await vloop.settle(3)
         else:
             prev = 0
             for c in deliver:
                 if prev < c < len(stream):
                     conn.tcp.feed(stream[prev:c])
                     prev = c
-                    if case.get("settle"):
+                    if case.get("settle") and not fin:
                         await vloop.settle(2)
             conn.tcp.feed(stream[prev:])
         await vloop.settle(6)
@@ -291,6 +307,9 @@ def enum_tls(tier):
             for mw in (False, True):
                 # whole stream in one read, and fractions of the stream (offsets are resolved at run time)
                 yield {"req": req, "tls": tls, "mw": mw, "cuts": [], "settle": False}
+                yield {"req": req, "tls": tls, "mw": mw, "cuts": [], "settle": False, "fin": True}
+                for k in (3, 9, 15, 21):
+                    yield {"req": req, "tls": tls, "mw": mw, "cuts": [], "frac": [k / 24], "settle": bool(k % 2), "fin": True}
                 for k in range(1, 24 if tier == "quick" else 64):
                     d = 24 if tier == "quick" else 64
                     yield {"req": req, "tls": tls, "mw": mw, "cuts": [], "frac": [k / d], "settle": bool(k % 2)}
@@ -302,7 +321,7 @@ def enum_tls(tier):
 def tls_random(draw):
     return {"req": draw(st.integers(0, len(TLS_REQS) - 1)), "tls": draw(st.sampled_from(["1.3", "1.3", "1.2"])),
             "mw": draw(st.booleans()), "cuts": sorted(set(draw(st.lists(st.integers(1, 400), max_size=6)))),
-            "settle": draw(st.booleans())}
+            "settle": draw(st.booleans()), "fin": draw(st.integers(0, 3)) == 0}
 
 
 def _nontrivial(case, v):
